@@ -13,7 +13,9 @@ From Verif Require Import Lib.Base Model.Cover Proofs.CoverBase Proofs.CoverStru
 
 (* ---- transparency ------------------------------------------------------------------- *)
 (* For every interpreter (all primitives arbitrary), every program without counter statements
-   whose action bodies / END blocks are not of the two defective shapes (guard_ok), both modes,
+   whose non-empty action bodies / END blocks are not made of empty blocks only (guard_ok: the
+   shape of F-C18-3, a defect of the compiler; the empty action {} is accepted since the repair of
+   F-C18-1), both modes,
    every fuel and start state: the annotated program and the original end with the same outcome,
    the same user-visible state (output, variables, exit status) and the same ghost trace; if
    one runs out of fuel so does the other. *)
@@ -37,27 +39,25 @@ Print Assumptions C18_transparent.
 (* the statement without the guard *)
 Definition C18_transparent_full_statement : Prop := transparent_full_statement.
 
-(* F-C18-1: `{}` -- annotateStmts returns nil for the empty body, which is "no action = print $0" *)
-Theorem C18_transparent_refuted : ~ C18_transparent_full_statement.
-Proof. exact transparent_refuted_empty_action. Qed.
-Print Assumptions C18_transparent_refuted.
-
 (* F-C18-3: `{ { } }` -- compiles to no code (run as print $0) until a counter is inserted *)
 Theorem C18_transparent_refuted_only_blocks : ~ C18_transparent_full_statement.
 Proof. exact transparent_refuted_block_action. Qed.
 Print Assumptions C18_transparent_refuted_only_blocks.
 
-(* what the two witnesses do, and that the guard excludes them *)
-Example C18_witness_empty_action :
+(* formerly F-C18-1 (repaired in cover.annotateStmts): an empty action {} is annotated to itself
+   and prints nothing in both runs; it now satisfies the guard, so C18_transparent covers it *)
+Example C18_empty_action_transparent :
   snd (Toy.run_toy unit (fun _ _ x => x) Toy.prog_empty_action tt) = ONormal unit /\
   s_u _ _ (fst (Toy.run_toy unit (fun _ _ x => x) Toy.prog_empty_action tt)) = (0%nat, 0%nat) /\
-  s_u _ _ (fst (Toy.run_toy cover_array cover_bump (fst (annotate [] MSet Toy.prog_empty_action)) cover_empty)) = (0%nat, 2%nat).
+  s_u _ _ (fst (Toy.run_toy cover_array cover_bump (fst (annotate [] MSet Toy.prog_empty_action)) cover_empty)) = (0%nat, 0%nat)
+  /\ p_actions (fst (annotate [] MSet Toy.prog_empty_action)) = [mkaction [] (Some [])].
 Proof. exact toy_empty_action. Qed.
+(* what the remaining witness does, and that the guard excludes it *)
 Example C18_witness_only_blocks :
   s_u _ _ (fst (Toy.run_toy unit (fun _ _ x => x) Toy.prog_block_action tt)) = (0%nat, 2%nat) /\
   s_u _ _ (fst (Toy.run_toy cover_array cover_bump (fst (annotate [] MSet Toy.prog_block_action)) cover_empty)) = (0%nat, 0%nat).
 Proof. exact toy_block_action. Qed.
-Example C18_witnesses_excluded : guard_ok Toy.prog_empty_action = false /\ guard_ok Toy.prog_block_action = false.
+Example C18_witnesses_excluded : guard_ok Toy.prog_empty_action = true /\ guard_ok Toy.prog_block_action = false.
 Proof. exact toy_guards. Qed.
 
 (* ---- exact counts ------------------------------------------------------------------- *)
@@ -182,6 +182,25 @@ Theorem C18_file_line_exact : forall files src path content,
         file_line (files ++ [(path, count_nl added)]) line = file_line files line).
 Proof. exact file_line_exact. Qed.
 Print Assumptions C18_file_line_exact.
+
+(* WriteProfile and the previous content of the profile file: without -coverappend, or when the
+   file did not exist, the result does not depend on the old content (the file is truncated); with
+   -coverappend on an existing file the old content is kept and only block lines are added; a
+   profile that was not appended has exactly one line per block of the program that ran. *)
+Theorem C18_write_profile_overwrites : forall m app existed old abs bl data,
+  app && existed = false ->
+  write_profile m app existed old abs bl data = write_profile m false false [] abs bl data.
+Proof. exact write_profile_overwrites. Qed.
+Print Assumptions C18_write_profile_overwrites.
+Theorem C18_write_profile_appends : forall m old abs bl data,
+  write_profile m true true old abs bl data = old ++ profile_lines abs bl data 0.
+Proof. exact write_profile_appends. Qed.
+Theorem C18_write_profile_line_count : forall m app existed old abs bl data,
+  app && existed = false ->
+  Forall (fun b => Forall (fun c => c <> 10) (abs (b_path b))) bl ->
+  count_nl (write_profile m app existed old abs bl data) = 1 + zlen bl.
+Proof. exact write_profile_line_count. Qed.
+Print Assumptions C18_write_profile_line_count.
 
 (* F-C18-2: without the same-file guard the statement fails: "BEGIN { print 1" + "print 2 }" *)
 Theorem C18_blocks_straddle_refuted :
